@@ -93,15 +93,14 @@ type hostReg struct {
 
 var curHosts = map[uintptr]int{}
 
-var encDepth int
+func encVal(sb *strings.Builder, v interface{}) { encValDepth(sb, v, 0) }
 
-func encVal(sb *strings.Builder, v interface{}) {
-	encDepth++
-	defer func() { encDepth-- }()
-	if encDepth > 12 {
+func encValDepth(sb *strings.Builder, v interface{}, depth int) {
+	if depth > 12 {
 		sb.WriteString("X")
 		return
 	}
+	encVal := func(sb *strings.Builder, v interface{}) { encValDepth(sb, v, depth+1) }
 	switch x := v.(type) {
 	case nil:
 		sb.WriteString("N")
